@@ -1,6 +1,7 @@
 package symex
 
 import (
+	"reflect"
 	"encoding/hex"
 	"encoding/json"
 	"fmt"
@@ -1292,7 +1293,7 @@ func jsonUnmarshal(m *Machine, fn *ssa.Function, args []Value) Value {
 				return &IfaceV{}
 			}
 		} else if types.Identical(st, elem) {
-			target.store(sv)
+			target.store(jsonMergeOmitted(elem, target.load(), sv))
 			return &IfaceV{}
 		}
 	}
@@ -1333,6 +1334,85 @@ func jsonUnmarshal(m *Machine, fn *ssa.Function, args []Value) Value {
 		target.store(m.FreshValue(elem, "json", 2))
 	}
 	return &IfaceV{}
+}
+
+// jsonMergeOmitted: what decoding the encoding of src into a destination that already holds old gives.
+// encoding/json sets the members present in the payload and leaves the others alone; a member is absent
+// exactly when its tag says omitempty and the encoded value was empty (false, 0, "", nil, length 0).  Only
+// the case that matters is modelled: a destination member that is not the zero value already (a decoder
+// reusing a record) - there the member keeps its old content when the source member was empty.
+func jsonMergeOmitted(t types.Type, old, src Value) Value {
+	st, ok := under(t).(*types.Struct)
+	if !ok {
+		return src
+	}
+	os, ok1 := old.(*StructV)
+	ss, ok2 := src.(*StructV)
+	if !ok1 || !ok2 || len(os.F) != len(ss.F) || len(ss.F) != st.NumFields() {
+		return src
+	}
+	var out *StructV
+	for i := 0; i < st.NumFields(); i++ {
+		tag := reflect.StructTag(st.Tag(i)).Get("json")
+		if !st.Field(i).Exported() || !strings.Contains(tag, ",omitempty") || jsonIsZeroValue(os.F[i]) {
+			continue
+		}
+		var merged Value
+		switch v := ss.F[i].(type) {
+		case *smt.Term:
+			o, ok := os.F[i].(*smt.Term)
+			if !ok {
+				continue
+			}
+			merged = smt.Ite(smt.Eq(v, zeroTerm(v.Sort)), o, v)
+		case *SliceV:
+			if v == nil || v.Len == 0 {
+				merged = os.F[i]
+			}
+		case *Ptr:
+			if v == nil {
+				merged = os.F[i]
+			}
+		case *IfaceV:
+			if v == nil || v.T == nil {
+				merged = os.F[i]
+			}
+		}
+		if merged == nil {
+			continue
+		}
+		if out == nil {
+			out = &StructV{F: append([]Value(nil), ss.F...)}
+		}
+		out.F[i] = merged
+	}
+	if out == nil {
+		return src
+	}
+	return out
+}
+
+func jsonIsZeroValue(v Value) bool {
+	switch x := v.(type) {
+	case *smt.Term:
+		return x.IsConst() && smt.Eq(x, zeroTerm(x.Sort)) == smt.True
+	case *SliceV:
+		return x == nil
+	case *Ptr:
+		return x == nil
+	case *IfaceV:
+		return x == nil || x.T == nil
+	case *StructV:
+		for _, f := range x.F {
+			if !jsonIsZeroValue(f) {
+				return false
+			}
+		}
+		return true
+	case *MapV:
+		return x == nil || x.M == nil
+	}
+	return false
 }
 
 func (m *Machine) hdraw(name string) {
